@@ -18,16 +18,11 @@ Definition C04_full_statement : Prop :=
 (* It is FALSE: ConcurrentTaskSet::schedule(f) after cancel() returned, with workRemaining_ = 40 > poolLoadFactor_ = 32, reaches the call
    site of the second inline fallback (site 6 = cts.schedule.inline2.body) with canceled_ = true, without licence, and the calling
    thread has already logged the return of cancel(). *)
-Definition c04_witness : setup := SU [TC true false 4 []] [] 40 1 32 3 0 [] [([OCancel 0; OSched 0 false false []], false, 0)].
 Theorem C04_refuted :
   exists s th k b rest, reach step1 (init c04_witness) s /\ In th (threads s) /\ stk th = FRawPt 0 k b 6 0 true :: rest /\
     canc (sets (sh s) 0) = true /\ 0 < cst (sets (sh s) 0) /\ In (t_c, 0, cst (sets (sh s) 0)) (res th) /\
     lic_of (FRawPt 0 k b 6 0 true) = None.
-Proof.
-  pose proof (run_ts_reach 4 c04_witness [0; 0; 0]) as R.
-  remember (run_ts 4 c04_witness [0; 0; 0]) as r eqn:E. vm_compute in E. subst r. cbn [fst] in R.
-  eexists _, _, _, _, _. split; [exact R|]. cbn. split; [left; reflexivity|]. repeat split; try reflexivity. left. reflexivity.
-Qed.
+Proof. exact c04_refuted_reach. Qed.
 Print Assumptions C04_refuted.
 
 (* It HOLDS everywhere else: at every body call site other than the two second-inline-fallback sites (6 = cts.schedule.inline2.body,
